@@ -42,7 +42,10 @@ def c16(chk):
                 "LifecycleOps.tla and judges the observation against the connections the driver holds open; "
                 "(3) token expiry measured against the wall clock with and without disconnect-on-expiry; "
                 "(4) a network path that goes silent (relay turned into a black hole): the keep-alive must end "
-                "the connection and release registration and session within 45 s, the sibling stays")
+                "the connection and release registration and session within 45 s, the sibling stays; "
+                "(5) a path congested to a standstill (relay stops reading, 80 uploads fill the buffers): a request "
+                "that cannot open a stream for 10 s is refused, and when the path flows again the listener is "
+                "still registered, advertised and served")
     chk.assumptions = ["quiescence is awaited for at most 8 s", "expiry tolerance -150 ms / +1500 ms",
                        "silent drop noticed within keep-alive interval 30 s + write timeout 10 s + 5 s",
                        "shedding is only triggered while every listener would reconnect"]
@@ -70,7 +73,7 @@ def c16(chk):
             ops[k] = ops.get(k, 0) + n
     chk.notes["executed_calls_by_action"] = ops
     chk.rule += "; distinct_nontrivial = distinct observations"
-    for need in ("Life", "Expiry", "Stall"):
+    for need in ("Life", "Expiry", "Stall", "Backlog"):
         if ops.get(need, 0) == 0:
             raise vp.Machinery("vacuous run: no " + need)
 
